@@ -1197,7 +1197,9 @@ fn walk<R: RoleX, T: IsPacketId>(role: &'static str, ver: u8, steps: usize, rng:
             g.force_persist = true;
         }
         g.force_ok = true;
-        g.force_peer_tam = Some(*g.rng.pick(&[1u16, 2, 2, 3]));
+        // (sometimes the whole alias range, the churn then runs over its two highest values)
+        let top = g.rng.chance(1, 4);
+        g.force_peer_tam = Some(if top { 65535 } else { *g.rng.pick(&[1u16, 2, 2, 3]) });
         g.handshake();
         g.force_ok = false;
         g.force_persist = false;
@@ -1226,7 +1228,7 @@ fn walk<R: RoleX, T: IsPacketId>(role: &'static str, ver: u8, steps: usize, rng:
                     (vec![], Some(a))
                 }
                 4 | 5 => (ts[g.rng.below(2) as usize].to_vec(), None),
-                _ => (ts[g.rng.below(2) as usize].to_vec(), Some(*g.rng.pick(&[1u16, 2]))),
+                _ => (ts[g.rng.below(2) as usize].to_vec(), Some(if top { *g.rng.pick(&[65535u16, 65535, 65534]) } else { *g.rng.pick(&[1u16, 2]) })),
             };
             if let (Some(a), false) = (alias, topic.is_empty()) {
                 let t = if topic == ts[0] { 0 } else { 1 };
@@ -1379,7 +1381,8 @@ fn walk<R: RoleX, T: IsPacketId>(role: &'static str, ver: u8, steps: usize, rng:
                     }
                 }
                 4 => {
-                    g.op(format!("recv {}", hex(&w_ack(v, pw, 6, id, None, None))));
+                    let rc = if v == 5 && g.rng.chance(1, 3) { Some(*g.rng.pick(&[0u8, 0x92, 0x92])) } else { None };
+                    g.op(format!("recv {}", hex(&w_ack(v, pw, 6, id, rc, None))));
                     released.push(id);
                 }
                 5 => {
@@ -1471,7 +1474,26 @@ fn walk<R: RoleX, T: IsPacketId>(role: &'static str, ver: u8, steps: usize, rng:
             g.op(format!("send {} {}", v, hex(&w_publish(v, pw, 2, false, false, b"a", id, &[], b"x2"))));
             g.after_send(id);
             g.op(format!("recv {}", hex(&w_ack(v, pw, 5, id, None, None))));
-            if g.pubrec_delivered(id) {
+            if g.pubrec_delivered(id) && g.rng.chance(1, 3) {
+                // variant: the PUBREL goes out, the transport is lost, the next connection starts a NEW
+                // session; the identifier is used again for a stored QoS 1 PUBLISH; the old PUBCOMP arrives late
+                if g.pubrec_done(id) {
+                    g.op(format!("send {} {}", v, hex(&w_ack(v, pw, 6, id, None, None))));
+                }
+                g.op("closed".into());
+                g.my_ids.retain(|x| *x != id);
+                g.force_clean = Some(true);
+                g.handshake();
+                if g.status() == "C" {
+                    let id2 = g.fresh_id();
+                    g.op(format!("send {} {}", v, hex(&w_publish(v, pw, 1, false, false, b"a", id2, &[], b"n1"))));
+                    g.after_send(id2);
+                    g.op(format!("recv {}", hex(&w_ack(v, pw, 7, id, None, None))));
+                    if g.status() == "C" {
+                        g.op(format!("recv {}", hex(&w_ack(v, pw, 4, id2, None, None))));
+                    }
+                }
+            } else if g.pubrec_delivered(id) {
                 g.op("closed".into());
                 g.my_ids.retain(|x| *x != id);
                 g.op(format!("send {} {}", v, hex(&w_ack(v, pw, 6, id, None, None))));
@@ -1675,9 +1697,20 @@ fn walk<R: RoleX, T: IsPacketId>(role: &'static str, ver: u8, steps: usize, rng:
             g.after_send(id);
             if when == 0 {
                 g.op(format!("erase {id}"));
+                if g.rng.chance(1, 2) {
+                    // the identifier is handed out again at once and carries a stored QoS 1 PUBLISH
+                    // when the peer's PUBREC for the erased one arrives
+                    let id2 = g.fresh_id();
+                    g.op(format!("send 5 {}", hex(&w_publish(5, pw, 1, false, false, b"a", id2, &[], b"n1"))));
+                    g.after_send(id2);
+                }
             }
             g.op("vacancy".into());
             g.op(format!("recv {}", hex(&w_ack(5, pw, 5, id, None, None))));
+            if when == 0 && g.status() == "C" && g.pubrec_delivered(id) {
+                // (only if the PUBREC was delivered although its PUBLISH had been erased)
+                g.op(format!("send 5 {}", hex(&w_ack(5, pw, 6, id, None, None))));
+            }
             if g.pubrec_delivered(id) && g.pubrec_done(id) && when != 0 {
                 if when == 1 {
                     g.op(format!("erase {id}"));
@@ -1848,6 +1881,28 @@ fn walk<R: RoleX, T: IsPacketId>(role: &'static str, ver: u8, steps: usize, rng:
             }
         }
         g.inflight.clear();
+    }
+    if g.legal && g.s.version() == 5 && g.rng.chance(1, 12) {
+        // directed: a PUBLISH that announces an alias is refused as too large; the binding it would have
+        // announced never reached the peer, so neither the application nor automatic mapping may use it
+        let pw = g.pw();
+        for f in ["amap", "arep"] {
+            let on = g.rng.chance(1, 2) as u8;
+            g.op(format!("set {f} {on}"));
+        }
+        g.force_ok = true;
+        g.force_peer_tam = Some(3);
+        let l = *g.rng.pick(&[20u32, 30]);
+        g.force_peer_mps = Some(l);
+        g.handshake();
+        g.force_ok = false;
+        g.force_peer_tam = None;
+        g.force_peer_mps = None;
+        if g.status() == "C" {
+            g.op(format!("send 5 {}", hex(&w_publish(5, pw, 0, false, false, b"a", 0, &[P::U16(35, 1)], &vec![7u8; l as usize]))));
+            g.op(format!("send 5 {}", hex(&w_publish(5, pw, 0, false, false, b"", 0, &[P::U16(35, 1)], b"x"))));
+            g.op(format!("send 5 {}", hex(&w_publish(5, pw, 0, false, false, b"a", 0, &[], b"x"))));
+        }
     }
     if !g.started && g.rng.chance(1, 6) {
         // resume from an export made by a previous process (before any connection of this object)
@@ -2172,6 +2227,19 @@ fn restore_trial<R: RoleX, T: IsPacketId>(role: &'static str, ver: u8, steps: us
     g.force_clean = None;
     g.force_ok = false;
     g.force_persist = false;
+    if g.status() == "C" && g.rng.chance(1, 2) {
+        // the peer continues the inbound QoS 2 exchanges it has a PUBREC for: PUBREL at once
+        let h2: Vec<u64> = g.s.field("h2").split(',').filter_map(|x| x.parse().ok()).collect();
+        let (v, pw) = (g.ver(), g.pw());
+        for id in h2.into_iter().take(2) {
+            if g.status() == "C" {
+                g.op(format!("recv {}", hex(&w_ack(v, pw, 6, id, None, None))));
+                if g.status() == "C" && g.rng.chance(1, 2) {
+                    g.op(format!("recv {}", hex(&w_publish(v, pw, 2, false, false, b"a", id, &[], b"again"))));
+                }
+            }
+        }
+    }
     for _ in 0..(steps / 2).max(6) {
         if g.s.dead {
             break;
